@@ -18,9 +18,9 @@ import (
 // ---------------------------------------------------------------- reference model
 
 type Addr struct {
-	Kind   string `json:"kind"` // any | assigned | host | prefix
+	Kind   string  `json:"kind"` // any | assigned | host | prefix
 	IP     [4]byte `json:"ip"`
-	Prefix int    `json:"prefix"`
+	Prefix int     `json:"prefix"`
 }
 
 type PortItem struct {
@@ -222,3 +222,49 @@ func GenRule(t *rapid.T) *Rule {
 	return r
 }
 
+// Mutate draws a near-miss mutation of a valid rule (shared by C16 and C07).
+func Mutate(t *rapid.T, r *Rule) string {
+	toks := r.Tokens()
+	k := rapid.IntRange(0, 13).Draw(t, "mut")
+	i := rapid.IntRange(0, len(toks)-1).Draw(t, "pos")
+	switch k {
+	case 0: // delete a token
+		toks = append(toks[:i:i], toks[i+1:]...)
+	case 1: // duplicate a token
+		toks = append(toks[:i+1:i+1], toks[i:]...)
+	case 2:
+		toks[0] = rapid.SampledFrom([]string{"deny", "Permit", "PERMIT", "allow", ""}).Draw(t, "act")
+	case 3:
+		toks[1] = rapid.SampledFrom([]string{"both", "IN", "inn", "0"}).Draw(t, "dir")
+	case 4:
+		toks[2] = rapid.SampledFrom([]string{"256", "-1", "tcp", "udp", "0x11", "1e1", "99999999999999999999"}).Draw(t, "proto")
+	case 5: // IPv6 / broken addresses
+		toks[4] = rapid.SampledFrom([]string{"::1", "2001:db8::/32", "1.2.3", "1.2.3.4.5", "256.1.1.1", "1.2.3.4/33", "1.2.3.4/-1", "1.2.3.4/", "/8", "!1.2.3.4", "01.2.3.4"}).Draw(t, "addr")
+	case 6: // broken ports
+		p := rapid.SampledFrom([]string{"65536", "1-65536", "-", "1-", "-1", "1,,2", ",", "1-2-3", "9-1", "a", "1;2", "70000-80000"}).Draw(t, "ports")
+		toks = append(toks, p)
+	case 7:
+		toks = append(toks, rapid.SampledFrom([]string{"garbage", "frag", "established", "setup", "tcpflags", "to", "from"}).Draw(t, "suffix"))
+	case 8: // replace 'from'/'to'
+		for j := range toks {
+			if toks[j] == "from" || toks[j] == "to" {
+				if rapid.Bool().Draw(t, "rep") {
+					toks[j] = rapid.SampledFrom([]string{"form", "TO", "From", "t0"}).Draw(t, "kw")
+				}
+			}
+		}
+	case 9: // truncate
+		toks = toks[:i]
+	case 10: // join two tokens
+		if i+1 < len(toks) {
+			toks = append(append(toks[:i:i], toks[i]+toks[i+1]), toks[i+2:]...)
+		}
+	case 11: // unicode / control characters as separators
+		return strings.Join(toks, rapid.SampledFrom([]string{" ", "\x00", "\v", "\r\n", " "}).Draw(t, "usep"))
+	case 12: // ports in place of addresses
+		toks[4] = "80"
+	case 13: // swap from/to sections
+		toks[3], toks[len(toks)-2] = toks[len(toks)-2], toks[3]
+	}
+	return strings.Join(toks, " ")
+}
